@@ -148,6 +148,9 @@ func checkBuilt(s spec, queryLists [][][]byte, corr bool, family string) *gcs.Fi
 		return nil
 	}
 	fb, _ := f.Bytes()
+	if len(fb) > 20000 {
+		corr = false // a list literal that long overflows coqc's stack; the monitors below still run
+	}
 	if corr {
 		cases.Add(fmt.Sprintf("Build %d %d %s %s 0 %d %s", s.P, s.M, vh.CoqBytes(s.Key[:]), gref.CoqItems(s.Data), f.N(), vh.CoqBytes(fb)),
 			map[string]interface{}{"op": "BuildGCSFilter", "spec": s.replay(nil), "impl_N": f.N(), "impl_bytes": vh.Hex(fb)})
@@ -519,9 +522,10 @@ func familyCollision(rng *vh.RNG) {
 		p uint8
 		m uint64
 	}
-	list := []cc{{40, 32, 1 << 32}, {24, 30, 1 << 30}, {50, 28, 1<<28 + 12345}}
+	// the last two have N<<P < 2^32 <= N*M (values need more than 32 bits although N*2^P does not)
+	list := []cc{{40, 32, 1 << 32}, {24, 30, 1 << 30}, {50, 28, 1<<28 + 12345}, {60, 20, 1 << 27}, {45, 26, 1<<27 + 999}, {60, 25, 1 << 27}}
 	if cfg.Thorough() || cfg.Search {
-		list = append(list, cc{60, 27, 1 << 27}, cc{33, 31, 1<<31 + 1}, cc{12, 32, 1 << 32})
+		list = append(list, cc{60, 27, 1 << 27}, cc{33, 31, 1<<31 + 1}, cc{12, 32, 1 << 32}, cc{200, 16, 1 << 25}, cc{7000, 19, 784931}, cc{5473, 19, 784931}, cc{8191, 19, 784931})
 	}
 	for ci, c := range list {
 		key := randKey(r)
@@ -565,7 +569,7 @@ func familyCollision(rng *vh.RNG) {
 			}
 			return out
 		}
-		checkBuilt(s, [][][]byte{{b}, pad(c.n/2 + 1), pad(3), {a, b}, {b, a}}, !cfg.Search, "collision")
+		checkBuilt(s, [][][]byte{{b}, pad(c.n/2 + 1), pad(3), {a, b}, {b, a}}, !cfg.Search && c.n <= 60, "collision")
 		// the same with the roles swapped (b a member, a only queried): whichever of the two hashed values is
 		// the smaller one, one of the two filters has the member as the LARGER of a pair of queried values that
 		// agree in their low 32 bits
@@ -702,8 +706,8 @@ func familyLongRun(rng *vh.RNG) {
 					s.Data = append(s.Data, randItem(r))
 				}
 				note(s)
-				// Coq: the two short ones, and one with a run beyond 2^16
-				corr := !cfg.Search && rep2 == 0 && (li < 2 && n == 2 || li == 2 && n == 1)
+				// Coq: the two short ones (the run of exactly 65536 below also goes to Coq)
+				corr := !cfg.Search && rep2 == 0 && li < 2 && n == 2
 				checkBuilt(s, queriesFor(r, s.Data, true), corr, "longrun")
 			}
 		}
@@ -735,7 +739,7 @@ func familyLongRun(rng *vh.RNG) {
 			s := spec{P: 0, M: m, Key: key, Data: [][]byte{it}}
 			note(s)
 			non := append([]byte{0xEE}, r.Bytes(9)...)
-			checkBuilt(s, [][][]byte{{it}, {non}, {non, it}}, !cfg.Search && tg <= 257, "longrun")
+			checkBuilt(s, [][][]byte{{it}, {non}, {non, it}}, !cfg.Search && (tg <= 257 || tg == 65536), "longrun")
 		}
 	}
 }
@@ -803,6 +807,135 @@ func familyInterleave(rng *vh.RNG) {
 				checkBuilt(s, lists, false, "interleave")
 			}
 		}
+	}
+}
+
+// query buffers reused and overwritten in place between calls (a rescan loop does this): the answers must
+// depend on the CONTENT of the items at the time of the call, not on the identity of the byte slices
+func familyReuse(rng *vh.RNG) {
+	r := rng.Fork("reuse")
+	for i := 0; i < cfg.Scale(60, 300); i++ {
+		p := uint8(r.Intn(21))
+		m := uint64(1)<<p + uint64(r.Intn(4))
+		if i%4 == 0 {
+			p, m = 19, 784931
+		}
+		n := 4 + r.Intn(20)
+		s := spec{P: p, M: m, Key: randKey(r)}
+		for k := 0; k < n; k++ {
+			s.Data = append(s.Data, r.Bytes(8))
+		}
+		f, err := gcs.BuildGCSFilter(s.P, s.M, s.Key, s.Data)
+		if err != nil {
+			continue
+		}
+		F := gref.Modulus(uint64(n), s.M)
+		refSet := map[uint64]bool{}
+		for _, d := range s.Data {
+			refSet[gref.Value(s.Key, F, d)] = true
+		}
+		k := 1 + r.Intn(6)
+		if i%3 == 0 {
+			k = n/2 + 1 + r.Intn(3) // at or above N/2: MatchAny takes the hash route
+		}
+		bufs := make([][]byte, k)
+		for j := range bufs {
+			bufs[j] = append([]byte{0xEE}, r.Bytes(7)...)
+		}
+		var history []string
+		step := func(what string) bool {
+			history = append(history, what+": "+strings.Join(hexItems(bufs), ","))
+			a := queryAll(f, s.Key, bufs, true)
+			rep.Count("reuse", fmt.Sprintf("u%d/%d/%s", i, len(history), what), true)
+			if a.err != "" {
+				rep.Violate("C13:query:error", "a query failed or panicked", s.replay(map[string]interface{}{"sequence_same_buffers": history, "error": a.err}))
+				return false
+			}
+			want := false
+			for j, q := range bufs {
+				ref := refSet[gref.Value(s.Key, F, q)]
+				want = want || ref
+				if a.single[j] != ref {
+					key := "C13:match:false_positive"
+					if ref {
+						key = "C13:match:missed"
+					}
+					rep.Violate(key, "Match disagrees with membership of the hashed value (query buffers reused in place)",
+						s.replay(map[string]interface{}{"sequence_same_buffers": history, "query": hex.EncodeToString(q), "Match": a.single[j], "reference": ref}))
+					return false
+				}
+			}
+			if a.zip != want || a.hash != want || a.any != want {
+				rep.Violate("C13:strategies:agree", "an any-of form differs from 'some queried item matches individually' when the caller reuses (overwrites in place) the byte slices of an earlier query",
+					s.replay(map[string]interface{}{"sequence_same_buffers": history, "some_item_matches": want, "ZipMatchAny": a.zip, "HashMatchAny": a.hash, "MatchAny": a.any}))
+				return false
+			}
+			return true
+		}
+		s.Gen = fmt.Sprintf("reuse#%d (stateful: the same query slices are overwritten in place between calls; re-run the family with the recorded seed); items=%v", i, hexItems(s.Data))
+		if !step("non-members") {
+			continue
+		}
+		j := r.Intn(k)
+		copy(bufs[j], s.Data[r.Intn(n)]) // same slice, now holding a member
+		if !step("one buffer overwritten with a member") {
+			continue
+		}
+		copy(bufs[j], append([]byte{0xEE}, r.Bytes(7)...))
+		if !step("overwritten back with a non-member") {
+			continue
+		}
+		for j := range bufs {
+			copy(bufs[j], s.Data[r.Intn(n)])
+		}
+		step("all buffers overwritten with members")
+	}
+}
+
+// digests and moduli that make the middle column of the 64x64 product overflow: M = c*2^32 - 1 (so
+// N*M has its low word just below 2^32) and items whose SipHash has its high word within a few
+// thousand of 2^32 (found by scanning).  fastReduction itself is monitored elsewhere; this drives
+// the reduction as BuildGCSFilter and the queries apply it.
+func carryItems(r *vh.RNG, key [16]byte, want int, slack uint64) [][]byte {
+	var out [][]byte
+	for t := 0; t < 40000000 && len(out) < want; t++ {
+		it := gref.LE64(r.U64())
+		if gref.Sip(key, it)>>32 >= 1<<32-slack {
+			out = append(out, it)
+		}
+	}
+	return out
+}
+
+func familyReduceWrap(rng *vh.RNG) {
+	r := rng.Fork("reducewrap")
+	type rc struct {
+		c uint64 // M = c*2^32 - 1
+		n int
+	}
+	list := []rc{{1000, 50}, {4096, 12}, {2000, 30}, {3000, 4}}
+	if cfg.Thorough() || cfg.Search {
+		list = append(list, rc{500, 200}, rc{64, 2000}, rc{8000, 9})
+	}
+	for li, c := range list {
+		m := c.c<<32 - 1
+		key := randKey(r)
+		F := gref.Modulus(uint64(c.n), m)
+		nHi, nLo := F>>32, F&0xffffffff
+		// high word of the digest within nHi/4 of 2^32 (and the low word of N*M is within N of 2^32)
+		crafted := carryItems(r, key, 3, nHi/4)
+		s := spec{P: 32, M: m, Key: key, Data: crafted}
+		for len(s.Data) < c.n {
+			s.Data = append(s.Data, randItem(r))
+		}
+		rep.Count("reducewrap", fmt.Sprintf("w%d/%d/%x", c.c, c.n, key[:4]), len(crafted) > 0)
+		rep.Histogram[fmt.Sprintf("reducewrap:crafted=%d", len(crafted))]++
+		rep.Sample(map[string]interface{}{"reducewrap": map[string]interface{}{"N": c.n, "M": strconv.FormatUint(m, 10), "N*M_hi": nHi, "2^32-N*M_lo": 1<<32 - nLo, "crafted_items": hexItems(crafted)}}, 2)
+		ql := queriesFor(r, s.Data, true)
+		if len(crafted) > 0 {
+			ql = append(ql, crafted, [][]byte{crafted[0]})
+		}
+		checkBuilt(s, ql, !cfg.Search && li == 1, "reducewrap")
 	}
 }
 
@@ -1094,6 +1227,8 @@ func runReplay(path string) {
 		familyCollision(rng)
 		familyLongRun(rng)
 		familyInterleave(rng)
+		familyReuse(rng)
+		familyReduceWrap(rng)
 		return
 	}
 	var qs [][]byte
@@ -1132,6 +1267,8 @@ func main() {
 		familyAlloc(rng)
 		familyLongRun(rng)
 		familyInterleave(rng)
+		familyReuse(rng)
+		familyReduceWrap(rng)
 		if !cfg.Search {
 			familyHostile(rng)
 			familyTruncated(rng)
